@@ -23,9 +23,9 @@ func wiringByName(name string) *wiring {
 	switch name {
 	case "idx":
 		return &wiring{Name: "idx", Stores: []*sStore{
-			{Name: "emp", Fields: []sField{{"name", false}, {"nick", true}, {"boss", true}, {"dept", false}}, Sets: []string{"roles"}},
-			{Name: "dept", Fields: []sField{{"title", false}}, Sets: []string{"tagsx"}},
-			{Name: "mgr", Parent: "emp", Fields: []sField{{"level", true}}},
+			{Name: "emp", Fields: []sField{{Name: "name"}, {Name: "nick", Ptr: true, Sym: "nickSym"}, {Name: "boss", Ptr: true}, {Name: "dept"}}, Sets: []string{"roles"}},
+			{Name: "dept", Fields: []sField{{Name: "title", Sym: "titleSym"}}, Sets: []string{"tagsx"}},
+			{Name: "mgr", Parent: "emp", Fields: []sField{{Name: "level", Ptr: true}}},
 		}, Script: []wiringDecl{
 			{Kind: "unique", Store: "emp", Field: "name"},
 			{Kind: "unique", Store: "emp", Field: "nick", Nullable: true},
@@ -40,9 +40,9 @@ func wiringByName(name string) *wiring {
 		}}
 	case "fkc":
 		return &wiring{Name: "fkc", Stores: []*sStore{
-			{Name: "emp", Fields: []sField{{"name", false}, {"boss", true}, {"dept", false}, {"room", true}}},
-			{Name: "dept", Fields: []sField{{"title", false}}},
-			{Name: "room", Fields: []sField{{"label", true}}},
+			{Name: "emp", Fields: []sField{{Name: "name"}, {Name: "boss", Ptr: true, Sym: "bossSym"}, {Name: "dept"}, {Name: "room", Ptr: true}}},
+			{Name: "dept", Fields: []sField{{Name: "title"}}},
+			{Name: "room", Fields: []sField{{Name: "label", Ptr: true}}},
 		}, Script: []wiringDecl{
 			{Kind: "unique", Store: "emp", Field: "name"},
 			{Kind: "fkcons", Store: "emp", Field: "boss", Target: "emp", Nullable: true, Casc: "N"},
@@ -52,10 +52,10 @@ func wiringByName(name string) *wiring {
 		}}
 	case "casc":
 		return &wiring{Name: "casc", Stores: []*sStore{
-			{Name: "a", Fields: []sField{{"name", false}}, Sets: []string{"roles"}},
-			{Name: "b", Fields: []sField{{"name", false}, {"a", false}}},
-			{Name: "c", Fields: []sField{{"name", true}, {"b", false}, {"a", true}}},
-			{Name: "bx", Parent: "b", Ext: true, Fields: []sField{{"code", true}}},
+			{Name: "a", Fields: []sField{{Name: "name"}}, Sets: []string{"roles"}},
+			{Name: "b", Fields: []sField{{Name: "name"}, {Name: "a"}}},
+			{Name: "c", Fields: []sField{{Name: "name", Ptr: true, Sym: "cname"}, {Name: "b"}, {Name: "a", Ptr: true}}},
+			{Name: "bx", Parent: "b", Ext: true, Fields: []sField{{Name: "code", Ptr: true}}},
 		}, Script: []wiringDecl{
 			{Kind: "unique", Store: "a", Field: "name"},
 			{Kind: "setidx", Store: "a", Field: "roles"},
@@ -343,7 +343,23 @@ func (g *histGen) genTx() hTx {
 	if g.r.chance(g.p.pFail) {
 		pos := g.r.intn(len(t.Ops) + 1)
 		ops := append([]hOp{}, t.Ops[:pos]...)
-		ops = append(ops, hOp{Kind: "FAIL"})
+		fail := hOp{Kind: "FAIL"}
+		if g.r.chance(35) { // a create the storage layer must reject (unsupported tag value)
+			roots := []string{}
+			for _, s := range g.w.Stores {
+				if s.Parent == "" {
+					roots = append(roots, s.Name)
+				}
+			}
+			fail = hOp{Kind: "CT", Store: roots[g.r.intn(len(roots))], Id: "ct" + g.pickId()}
+			g.fieldsValue(&fail)
+			for k, v := range fail.F { // keep the create valid apart from its tags
+				if v != nil && *v == "" {
+					fail.F[k] = sp("ctv")
+				}
+			}
+		}
+		ops = append(ops, fail)
 		ops = append(ops, t.Ops[pos:]...)
 		t.Ops = ops
 	}
@@ -622,6 +638,11 @@ func parseCase(line string) (*wiring, []hTx, error) {
 					op.Targets = append(op.Targets, string(unhx(next())))
 				}
 			case "FAIL":
+			case "FAILT":
+				op.Kind = "CT"
+				op.Store, op.Id = next(), string(unhx(next()))
+				op.F = map[string]*string{}
+				op.S = map[string][]string{}
 			default:
 				return nil, nil, fmt.Errorf("bad op %q", op.Kind)
 			}
